@@ -29,6 +29,7 @@ static uint64_t pop(const char *fn, int isdouble, int bits)
 {
     if (vt_replay_mode)
     {
+        while (rp_i < rp_n && !strcmp(rp_fn[rp_i], "nondet_stub_uint")) rp_i++;   /* draws internal to CBMC-side contract stubs */
         if (rp_i >= rp_n) { printf("DESYNC out of values at %s\n", fn); done("desync"); }
         if (strcmp(rp_fn[rp_i], fn)) { printf("DESYNC want %s have %s\n", fn, rp_fn[rp_i]); done("desync"); }
         return rp_val[rp_i++];
